@@ -41,13 +41,20 @@ CLAIMS = {
   "one problem, on the real code.", COMMON_NOTE + "As C08.", "DESIGN.md C09",
   "Lean 4 proofs of the number and range layers + write/read-back correspondence check on the real code"),
  "C11": ("proof",
-  "Partial. Proved in Lean: the lexical number layer every numeric field passes through is total, consumes no more than it is given and never divides by "
-  "zero. Everything else is exhibited, not proved: valid files (from the real writers and an independent generator) with token-level mutations (repeated "
+  "Partial. Proved in Lean: (1) the lexical number layer every numeric field passes through is total, consumes no more than it is given and never divides by "
+  "zero; (2) the lexical layers of the LP reader (read_lp.c: next_line, skip_blanks, next_field, prev_field, next_var, keyword tests, colon, has_colon, "
+  "next_constraint, sign, test_next_is, value, possible_bound_value, sense, check_subject_to, error reporting) and of the MPS reader (read_mps.c: next_line, "
+  "skip_comment, next_field, next_coef, next_bound, next_field_is_number, check_end_of_line, set_end_of_line), modelled with an explicit string terminator: "
+  "from every state with the cursor inside the line's string no function reads behind the terminator or dereferences a null cursor, the cursor stays "
+  "inside the string, for every file and every call sequence (theorems lplex_safe, mpslex_safe, mpslex_next_line, mpslex_set_end_of_line), and a "
+  "successful LP token read strictly consumes input (lplex_progress: parser loops terminate). The models are tied to /repo by direct sessions on the "
+  "exported lexer functions (text + call sequence, whole observable state compared after every call, memory behind the terminators poisoned with two "
+  "patterns so that any dependence on it shows). Everything else is exhibited, not proved: valid files (from the real writers and an independent generator) with token-level mutations (repeated "
   "sections introducing new names, 200-70000 character names, 30000-term lines, pathological literals), byte-level mutations, truncations, random "
   "bytes, .gz/.bz2 containers (intact, truncated, corrupted, wrong extension, empty) and mutated basis files are each read in a forked ASan child with an "
   "alarm; a returned problem must be dumpable, writable, solvable and freeable.",
-  COMMON_NOTE + "Memory safety of the unmodelled reader code (line buffers, symbol table, compression layer) is only exhibited by the sanitizer.",
-  "DESIGN.md C11", "Lean 4 totality proofs for the lexical layer + mutation-based exploration under sanitizers"),
+  COMMON_NOTE + "Memory safety of the unmodelled reader code (section parsers, raw-LP tables, compression layer) is only exhibited by the sanitizer; libc calls of the lexers (sscanf %s, strncasecmp, strcpy, fgets) are modelled by their documented meaning.",
+  "DESIGN.md C11", "Lean 4 proofs (totality, string-bounds safety and progress of the lexical layers) with model/implementation correspondence check + mutation-based exploration under sanitizers"),
  "C10": ("proof",
   "Lean theorem scan_literal: the transliterated state machine of mpq_EGlpNumReadStrXc consumes exactly, and yields exactly the rational denoted "
   "by, every literal [±]digits[.digits][e[±]digits] with any number of mantissa digits and an exponent below 100000 (0.1 is 1/10); theorem "
